@@ -192,8 +192,9 @@ def harness_build():
     """build the harness against /repo's working tree with hooks on; fall back to no unit hooks"""
     with Lock('cargo'):
         shim = os.path.join(CACHE, 'fault.so')
-        if not os.path.exists(shim):
-            sh(['cc', '-shared', '-fPIC', '-O1', '-o', shim, os.path.join(HARNESS, 'shim', 'fault.c'), '-ldl'])
+        src = os.path.join(HARNESS, 'shim', 'fault.c')
+        if not os.path.exists(shim) or os.path.getmtime(src) > os.path.getmtime(shim):
+            sh(['cc', '-shared', '-fPIC', '-O1', '-o', shim, src, '-ldl'])
         # cargo decides by timestamps whether a path dependency changed: a tree restored with its old timestamps (copy, overlay,
         # rsync -a) would keep the binaries of the previous tree. Decide by content instead: when the sources differ from the ones
         # the last build saw, drop the compiled `anoncreds` artifacts so that they are rebuilt whatever the timestamps say.
